@@ -221,6 +221,13 @@ def finishFxOpacityOmitted (B : Mode → Color → Color → Color) (force : Boo
   let st1 := applySource (B pr.mode) st color (shape1 * pr.fill) (alpha1 * (pr.fill * pr.opacity)) pr.knockout
   applyStrokeFx B V pr.bbox x y pr.opacity (applyOverlays B V pr.bbox x y shape1 alpha1 st1 fx.overlays) fx.strokeFx
 
+theorem applyFxList_append (B : Mode → Color → Color → Color) (force : Bool) (V : Rect) (x y : Int) (st : PState)
+    (a b : List FxNode) :
+    applyFxList B force V x y st (a ++ b) = applyFxList B force V x y (applyFxList B force V x y st a) b := by
+  induction a generalizing st with
+  | nil => simp [applyFxList]
+  | cons n a ih => simp only [List.cons_append, applyFxList]; exact ih _
+
 /-! ### witnesses -/
 
 def allNormalFx : Mode → Color → Color → Color := fun _ => blNormal
